@@ -2,6 +2,7 @@
 //! serde_verb_payload::Serializer (dlt_args!) vs Dlt/Args.v + Dlt/Text.v
 use adlt::dlt::{DltArg, DltChar4, DltExtendedHeader, DltMessage, DltStandardHeader};
 use adlt::serde_verb_payload::{add_to_serializer, Error as SerErr, Serializer};
+use adlt::plugins::plugin::Plugin;
 use adlt::utils::payload_from_args;
 use serde::{Deserialize, Serialize};
 use vharness::*;
@@ -43,11 +44,33 @@ enum Sv {
     Seq, // a slice of u8 (serialize_seq)
 }
 
+/// a place INSIDE the crate that builds a message around a payload it encoded itself; the case observes the
+/// message it built and decodes it with the flags that message carries
+#[derive(Clone, Debug, Serialize, Deserialize)]
+enum Prod {
+    /// ExportPlugin (public API): `texts` = infoTexts of the config (valid UTF-8), the first exported message has the
+    /// byte order `src_be`, `more` further messages of the other / same order follow; observed: the info message of texts[k]
+    ExportInfo { src_be: bool, texts: Vec<Segs>, k: u64, more: Vec<bool> },
+    /// blf converter: one AppText object (any bytes; ablf decodes them lossily and drops one trailing NUL)
+    BlfAppText { source: u32, text: Segs, ts_ns: u64 },
+    /// blf converter: one CAN frame object
+    BlfCan { channel: u16, id: u32, data: Vec<u8> },
+    /// AnonymizePlugin on a log message (verbose: sample string in the message's order; non-verbose: id + time)
+    Anon { be: bool, verbose: bool, noar: u8, payload: Segs, rt_us: u64 },
+    /// text converters, one line: kind 0 = logcat monotonic, 1 = logcat threadtime, 2 = generic .log; observed: the log message
+    TextLog { kind: u8, tag: String, msg: String },
+    /// the GET_LOG_INFO message announcing a new tag (kind 0..2 as above) / an asc BusMapping comment (kind 3)
+    ApidInfo { kind: u8, tag: String },
+    /// asc converter: one CAN (fd = false) or CANFD frame line, `ext`: extended id with the x suffix
+    AscCan { fd: bool, ext: bool, id: u32, data: Vec<u8> },
+}
+
 #[derive(Clone, Debug, Serialize, Deserialize)]
 enum Enc {
     Payload(Segs),
     FromArgs(Vec<(u32, bool, Segs)>),
     Serde(Vec<Sv>),
+    Produced(Prod),
 }
 
 #[derive(Clone, Debug, Serialize, Deserialize)]
@@ -132,6 +155,324 @@ fn err_kind(e: &SerErr) -> u64 {
     }
 }
 
+// ------------------------------------------------------------------ producers inside the crate
+/// what running a producer gave: the observed message (None: the producer wrote none) and the violations of
+/// "what was built decodes to what was encoded" found on the OTHER messages of the same run
+struct Built {
+    msg: Option<DltMessage>,
+    issues: Vec<String>,
+}
+
+fn log_msg_like(be: bool, verbose: bool, noar: u8, payload: Vec<u8>, rt_us: u64) -> DltMessage {
+    DltMessage {
+        index: 0,
+        reception_time_us: rt_us,
+        ecu: DltChar4::from_buf(b"ECU1"),
+        timestamp_dms: 0,
+        standard_header: DltStandardHeader { htyp: 0x21 | if be { 2 } else { 0 }, len: 0, mcnt: 0 },
+        extended_header: Some(DltExtendedHeader {
+            verb_mstp_mtin: 0x40 | if verbose { 1 } else { 0 },
+            noar,
+            apid: DltChar4::from_buf(b"APID"),
+            ctid: DltChar4::from_buf(b"CTID"),
+        }),
+        payload,
+        payload_text: None,
+        lifecycle: 0,
+    }
+}
+
+/// a verbose message with (4711u16, "foo") in the requested byte order
+fn trigger_msg(be: bool) -> DltMessage {
+    let mut p = vec![];
+    let w32 = |v: u32| if be { v.to_be_bytes() } else { v.to_le_bytes() };
+    let w16 = |v: u16| if be { v.to_be_bytes() } else { v.to_le_bytes() };
+    p.extend_from_slice(&w32(0x42));
+    p.extend_from_slice(&w16(4711));
+    p.extend_from_slice(&w32(0x8200));
+    p.extend_from_slice(&w16(4));
+    p.extend_from_slice(b"foo\0");
+    DltMessage::get_testmsg_with_payload(be, 2, &p)
+}
+
+/// decode a verbose message with its own flags: (type_info, raw) list, all arguments must carry the message's order
+fn decode_own(m: &DltMessage) -> Result<Vec<(u32, Vec<u8>)>, String> {
+    let mut v = vec![];
+    for a in m {
+        if a.is_big_endian != m.is_big_endian() {
+            return Err("argument byte order differs from the message's".into());
+        }
+        v.push((a.type_info, a.payload_raw.to_vec()));
+    }
+    Ok(v)
+}
+/// the message decodes to exactly one UTF-8 string argument holding `text` (+ NUL), noar = 1, canonical text
+fn check_one_string(m: &DltMessage, text: &[u8], what: &str) -> Result<(), String> {
+    if !m.is_verbose() {
+        return Err(format!("{}: not verbose", what));
+    }
+    let args = decode_own(m).map_err(|e| format!("{}: {}", what, e))?;
+    if m.noar() as usize != args.len() {
+        return Err(format!("{}: noar {} but {} decodable argument(s) (is_big_endian={})", what, m.noar(), args.len(), m.is_big_endian()));
+    }
+    let mut raw = text.to_vec();
+    raw.push(0);
+    if args.len() != 1 || args[0].0 != 0x8200 || args[0].1 != raw {
+        return Err(format!("{}: encoded 1 string argument, decoded {:?}", what, args.iter().map(|a| (a.0, a.1.len())).collect::<Vec<_>>()));
+    }
+    let want = canon(Kind::Utf8, m.is_big_endian(), &raw);
+    match m.payload_as_text() {
+        Ok(t) if *t == want => Ok(()),
+        Ok(t) => Err(format!("{}: text {:?} want {:?}", what, t.chars().take(40).collect::<String>(), want.chars().take(40).collect::<String>())),
+        Err(_) => Err(format!("{}: text fmt error", what)),
+    }
+}
+/// info texts the export plugin writes a message for: not empty, and the message (standard header 4 + timestamp 4 +
+/// extended header 10 + one string argument: type info 4 + length 2 + text + NUL) fits the 16-bit length field
+fn export_text_written(t: &[u8]) -> bool {
+    !t.is_empty() && 18 + 7 + t.len() <= 65535
+}
+
+fn run_export(src_be: bool, texts: &[Vec<u8>], k: usize, more: &[bool]) -> Built {
+    let mut issues = vec![];
+    let f = tempfile::Builder::new().prefix("c18_export_").suffix(".dlt").tempfile().expect("tempfile");
+    let name = f.path().to_str().unwrap().to_owned();
+    drop(f);
+    let jt: Vec<serde_json::Value> = texts.iter().map(|t| serde_json::Value::String(String::from_utf8(t.clone()).expect("generator: info text must be UTF-8"))).collect();
+    let config = serde_json::json!({"name": "Export", "enabled": true, "exportFileName": name, "filters": [], "infoTexts": jt});
+    let mut sent = vec![trigger_msg(src_be)];
+    for b in more {
+        sent.push(trigger_msg(*b));
+    }
+    {
+        let mut plugin = adlt::plugins::export::ExportPlugin::from_json(config.as_object().unwrap()).expect("export config");
+        for m in sent.iter_mut() {
+            plugin.process_msg(m);
+        }
+        plugin.sync_all();
+    }
+    let data = std::fs::read(&name).unwrap_or_default();
+    let _ = std::fs::remove_file(&name);
+    let mut msgs = vec![];
+    let mut off = 0usize;
+    while off < data.len() {
+        match adlt::dlt::parse_dlt_with_storage_header(msgs.len() as u32, &data[off..]) {
+            Ok((n, m)) => {
+                off += n;
+                msgs.push(m);
+            }
+            Err(e) => {
+                issues.push(format!("export file does not parse at offset {}: {:?}", off, e));
+                break;
+            }
+        }
+    }
+    let is_info = |m: &DltMessage| m.apid().map(|a| a.as_buf() == b"VsDl").unwrap_or(false) && m.ctid().map(|a| a.as_buf() == b"Info").unwrap_or(false);
+    let infos: Vec<&DltMessage> = msgs.iter().filter(|m| is_info(m)).collect();
+    let exported: Vec<&DltMessage> = msgs.iter().filter(|m| !is_info(m)).collect();
+    // the exported messages themselves are untouched
+    if exported.len() != sent.len() {
+        issues.push(format!("{} messages exported, {} sent", exported.len(), sent.len()));
+    }
+    for (e, s0) in exported.iter().zip(sent.iter()) {
+        if e.is_big_endian() != s0.is_big_endian() || e.payload != s0.payload || e.noar() != s0.noar() {
+            issues.push("an exported message differs from the message sent".into());
+        }
+    }
+    // head of the file: creation info, then one message per written info text (mcnt = position + 1)
+    let n_written = texts.iter().filter(|t| export_text_written(t)).count();
+    if infos.len() != 1 + n_written {
+        issues.push(format!("{} info messages, expected {}", infos.len(), 1 + n_written));
+    }
+    if let Some(c) = infos.first() {
+        match decode_own(c) {
+            Ok(a) if a.len() == 1 && c.noar() == 1 && a[0].0 == 0x8200 && a[0].1.starts_with(b"File created by adlt v") && a[0].1.last() == Some(&0) => {
+                let t = c.payload_as_text().map(|t| t.into_owned()).unwrap_or_default();
+                if !t.starts_with("File created by adlt v") {
+                    issues.push(format!("creation info text {:?}", t));
+                }
+            }
+            Ok(a) => issues.push(format!("creation info: noar {} but decoded {} argument(s) (is_big_endian={})", c.noar(), a.len(), c.is_big_endian())),
+            Err(e) => issues.push(format!("creation info: {}", e)),
+        }
+    }
+    let mut observed = None;
+    for (idx, t) in texts.iter().enumerate() {
+        let m = infos.iter().skip(1).find(|m| m.standard_header.mcnt == ((idx + 1) % 256) as u8);
+        if idx == k {
+            observed = m.map(|m| (*m).clone());
+            continue; // judged by the oracle of the case
+        }
+        match (m, export_text_written(t)) {
+            (Some(m), true) => {
+                if let Err(e) = check_one_string(m, t, &format!("info text {}", idx)) {
+                    issues.push(e);
+                }
+            }
+            (None, false) => {}
+            (Some(_), false) => issues.push(format!("info text {} should have been skipped", idx)),
+            (None, true) => issues.push(format!("info text {} missing", idx)),
+        }
+    }
+    Built { msg: observed, issues }
+}
+
+// ---- a minimal .blf file: header + top-level objects (ablf reads objects outside containers as they are)
+fn blf_file(objs: &[Vec<u8>]) -> Vec<u8> {
+    let body: usize = objs.iter().map(|o| o.len()).sum();
+    let mut f = vec![];
+    f.extend_from_slice(b"LOGG");
+    f.extend_from_slice(&144u32.to_le_bytes());
+    f.extend_from_slice(&4070100u32.to_le_bytes());
+    f.extend_from_slice(&[2, 1, 0, 0]);
+    f.extend_from_slice(&((144 + body) as u64).to_le_bytes());
+    f.extend_from_slice(&((144 + body) as u64).to_le_bytes());
+    f.extend_from_slice(&(objs.len() as u32).to_le_bytes());
+    f.extend_from_slice(&(objs.len() as u32).to_le_bytes());
+    for _ in 0..2 {
+        for v in [2024u16, 3, 5, 15, 12, 0, 0, 0] {
+            f.extend_from_slice(&v.to_le_bytes());
+        }
+    }
+    f.extend_from_slice(&[0u8; 72]);
+    assert_eq!(f.len(), 144);
+    for o in objs {
+        f.extend_from_slice(o);
+    }
+    f
+}
+fn blf_obj_header(object_type: u32, remaining: u32, ts_ns: u64) -> Vec<u8> {
+    let mut o = vec![];
+    o.extend_from_slice(b"LOBJ");
+    o.extend_from_slice(&32u16.to_le_bytes());
+    o.extend_from_slice(&1u16.to_le_bytes());
+    o.extend_from_slice(&(16 + remaining).to_le_bytes());
+    o.extend_from_slice(&object_type.to_le_bytes());
+    o.extend_from_slice(&2u32.to_le_bytes()); // flags: time in ns
+    o.extend_from_slice(&0u16.to_le_bytes());
+    o.extend_from_slice(&0u16.to_le_bytes());
+    o.extend_from_slice(&ts_ns.to_le_bytes());
+    o
+}
+fn blf_apptext(source: u32, text: &[u8], ts_ns: u64) -> Vec<u8> {
+    let remaining = 16 + 16 + text.len() as u32;
+    let mut o = blf_obj_header(65, remaining, ts_ns);
+    o.extend_from_slice(&source.to_le_bytes());
+    o.extend_from_slice(&0u32.to_le_bytes());
+    o.extend_from_slice(&(text.len() as u32).to_le_bytes());
+    o.extend_from_slice(&0u32.to_le_bytes());
+    o.extend_from_slice(text);
+    o.extend(std::iter::repeat(0u8).take((remaining % 4) as usize));
+    o
+}
+fn blf_can(channel: u16, id: u32, data: &[u8], ts_ns: u64) -> Vec<u8> {
+    let remaining = 16 + 8 + data.len() as u32 + 8;
+    let mut o = blf_obj_header(86, remaining, ts_ns);
+    o.extend_from_slice(&channel.to_le_bytes());
+    o.push(0);
+    o.push(data.len().min(15) as u8);
+    o.extend_from_slice(&id.to_le_bytes());
+    o.extend_from_slice(data);
+    o.extend_from_slice(&0u32.to_le_bytes());
+    o.extend_from_slice(&[0, 0, 0, 0]);
+    o
+}
+fn convert(ext: &str, bytes: Vec<u8>, ns: u32) -> Vec<DltMessage> {
+    adlt::utils::get_dlt_message_iterator(ext, 0, std::io::Cursor::new(bytes), ns, Some(1_700_000_000_000_000), Some(1_700_000_100_000_000), None).collect()
+}
+/// what ablf's AppText::to_string gives the converter
+fn blf_text(text: &[u8]) -> Vec<u8> {
+    String::from_utf8_lossy(strip_nul(text)).into_owned().into_bytes()
+}
+/// the longest prefix (whole characters) that fits a message of the converter: 65535 - 22 header bytes - 7
+fn blf_fit(t: &[u8]) -> Vec<u8> {
+    let s = std::str::from_utf8(t).expect("lossy text is UTF-8");
+    let mut n = s.len().min(65535 - 22 - 7);
+    while !s.is_char_boundary(n) {
+        n -= 1;
+    }
+    t[..n].to_vec()
+}
+fn text_line(kind: u8, tag: &str, msg: &str) -> String {
+    match kind {
+        0 => format!("    18.062   529   530 I {}: {}\n", tag, msg),
+        1 => format!("03-05 12:34:56.789  1234  5678 W {}: {}\n", tag, msg),
+        _ => format!("[2024-03-09 23:01:31.627] [INF] [{}] {}\n", tag, msg),
+    }
+}
+fn asc_head() -> String {
+    "date Tue Apr 12 08:55:37 AM 2022\nbase hex timestamps absolute\nno internal events logged\n".to_string()
+}
+fn asc_can_line(fd: bool, ext: bool, id: u32, data: &[u8]) -> String {
+    let ids = format!("{:x}{}", id, if ext { "x" } else { "" });
+    let d = data.iter().map(|b| format!("{:02x}", b)).collect::<Vec<_>>().join(" ");
+    if fd {
+        format!("0.646664 CANFD 1 Rx {}   1 0 {:x} {} {} 0 0 3000 0 0 0 0 0\n", ids, data.len().min(15), data.len(), d)
+    } else {
+        format!("0.985210 1 {} Rx d {} {} Length = 0 BitCount = 0 ID = {}\n", ids, data.len(), d, id)
+    }
+}
+/// namespace of the converters' global tag / ecu maps: a fresh one per run keeps the runs independent
+fn fresh_ns() -> u32 {
+    static NS: std::sync::atomic::AtomicU32 = std::sync::atomic::AtomicU32::new(0x18_0000);
+    NS.fetch_add(1, std::sync::atomic::Ordering::Relaxed)
+}
+
+fn run_producer(p: &Prod) -> Built {
+    match p {
+        Prod::ExportInfo { src_be, texts, k, more } => {
+            let t: Vec<Vec<u8>> = texts.iter().map(expand).collect();
+            run_export(*src_be, &t, *k as usize, more)
+        }
+        Prod::BlfAppText { source, text, ts_ns } => {
+            let msgs = convert("blf", blf_file(&[blf_apptext(*source, &expand(text), *ts_ns)]), fresh_ns());
+            let mut issues = vec![];
+            if msgs.len() != 1 {
+                issues.push(format!("blf: {} messages from one AppText object", msgs.len()));
+            }
+            Built { msg: msgs.into_iter().find(|m| m.is_verbose()), issues }
+        }
+        Prod::BlfCan { channel, id, data } => {
+            let msgs = convert("blf", blf_file(&[blf_can(*channel, *id, data, 1000)]), fresh_ns());
+            let mut issues = vec![];
+            if msgs.len() != 1 {
+                issues.push(format!("blf: {} messages from one CAN object", msgs.len()));
+            }
+            Built { msg: msgs.into_iter().next(), issues }
+        }
+        Prod::Anon { be, verbose, noar, payload, rt_us } => {
+            let mut m = log_msg_like(*be, *verbose, *noar, expand(payload), *rt_us);
+            let mut plugin = adlt::plugins::anonymize::AnonymizePlugin::new("anon");
+            plugin.process_msg(&mut m);
+            Built { msg: Some(m), issues: vec![] }
+        }
+        Prod::TextLog { kind, tag, msg } => {
+            let msgs = convert(if *kind == 2 { "log" } else { "txt" }, text_line(*kind, tag, msg).into_bytes(), fresh_ns());
+            let mut issues = vec![];
+            if msgs.iter().filter(|m| m.is_verbose()).count() != 1 {
+                issues.push(format!("{} verbose messages from one line", msgs.iter().filter(|m| m.is_verbose()).count()));
+            }
+            Built { msg: msgs.into_iter().rev().find(|m| m.is_verbose()), issues }
+        }
+        Prod::ApidInfo { kind, tag } => {
+            let msgs = if *kind == 3 {
+                convert("asc", format!("{}// BusMapping: CAN 1 = {}\n", asc_head(), tag).into_bytes(), fresh_ns())
+            } else {
+                convert(if *kind == 2 { "log" } else { "txt" }, text_line(*kind, tag, "hello").into_bytes(), fresh_ns())
+            };
+            Built { msg: msgs.into_iter().find(|m| m.is_ctrl_response()), issues: vec![] }
+        }
+        Prod::AscCan { fd, ext, id, data } => {
+            let msgs = convert("asc", format!("{}{}", asc_head(), asc_can_line(*fd, *ext, *id, data)).into_bytes(), fresh_ns());
+            let mut issues = vec![];
+            if msgs.len() != 1 {
+                issues.push(format!("asc: {} messages from one frame line", msgs.len()));
+            }
+            Built { msg: msgs.into_iter().next(), issues }
+        }
+    }
+}
+
 fn mk_msg(i: &Input, payload: Vec<u8>) -> DltMessage {
     DltMessage {
         index: 0,
@@ -183,13 +524,41 @@ struct Exec {
     payload: Vec<u8>,          // after mutation
     dec: Option<Result<Decoded, String>>,
     text: Option<Result<String, String>>,
+    /// producers: the message the crate built (as observed), "the producer wrote no message", findings on its other messages
+    built: Option<DltMessage>,
+    built_none: bool,
+    issues: Vec<String>,
 }
 
 fn run_impl(i: &Input) -> Exec {
-    let mut ex = Exec { enc_err: None, enc_noar: None, enc_panic: None, payload0: None, payload: vec![], dec: None, text: None };
+    let mut ex = Exec { enc_err: None, enc_noar: None, enc_panic: None, payload0: None, payload: vec![], dec: None, text: None, built: None, built_none: false, issues: vec![] };
+    if let Enc::Produced(p) = &i.enc {
+        let p2 = p.clone();
+        match catch_loc(move || run_producer(&p2)) {
+            Err(e) => ex.enc_panic = Some(e),
+            Ok(b) => {
+                ex.issues = b.issues;
+                match b.msg {
+                    None => ex.built_none = true,
+                    Some(m) => {
+                        ex.built = Some(m.clone());
+                        ex.payload0 = Some(m.payload.clone());
+                        ex.payload = m.payload.clone();
+                        // decode from the payload (the text converters cache a text in the message)
+                        let mut m = m;
+                        m.payload_text = None;
+                        let verbose = m.is_verbose();
+                        decode_msg(&mut ex, m, verbose);
+                    }
+                }
+            }
+        }
+        return ex;
+    }
     // encode
     let enc = i.enc.clone();
     let r = catch_loc(move || match &enc {
+        Enc::Produced(_) => unreachable!(),
         Enc::Payload(s) => Ok((None, expand(s))),
         Enc::FromArgs(args) => {
             let raws: Vec<Vec<u8>> = args.iter().map(|a| expand(&a.2)).collect();
@@ -224,6 +593,12 @@ fn run_impl(i: &Input) -> Exec {
     }
     ex.payload = p.clone();
     let m = mk_msg(i, p);
+    decode_msg(&mut ex, m, i.ext && i.verbose);
+    ex
+}
+
+/// the iterator (next() until None, two more calls, the for loop) and, for verbose messages, payload_as_text
+fn decode_msg(ex: &mut Exec, m: DltMessage, want_text: bool) {
     // decode
     let mr = &m;
     let d = catch_loc(std::panic::AssertUnwindSafe(|| {
@@ -243,7 +618,7 @@ fn run_impl(i: &Input) -> Exec {
     }));
     ex.dec = Some(d);
     // text (verbose messages only: the non-verbose branch is control-message decoding, not part of C18)
-    if i.ext && i.verbose {
+    if want_text {
         let t = catch_loc(std::panic::AssertUnwindSafe(|| match mr.payload_as_text() {
             Ok(s) => Ok(s.into_owned()),
             Err(_) => Err(()),
@@ -254,7 +629,6 @@ fn run_impl(i: &Input) -> Exec {
             Err(e) => Err(e),
         });
     }
-    ex
 }
 
 // ------------------------------------------------------------------ external text functions
@@ -393,15 +767,163 @@ fn sv_expected(v: &Sv) -> Option<(u32, Vec<u8>)> {
     })
 }
 
+// ------------------------------------------------------------------ the property on the crate's own producers
+enum Rest {
+    Bytes(Vec<u8>),
+    U64(u64),
+    LogInfo(Vec<u8>),
+}
+/// what the producer was given to encode
+enum Intent {
+    NoMsg,
+    /// typed arguments (type word, raw value as the producer's byte order requires is derived from the message's flag)
+    Verbose { args: Vec<Val>, check_noar: bool },
+    NonVerbose { id: u32, rest: Rest },
+    /// any message is fine as long as it is consistent (noar = decodable arguments)
+    Consistent,
+}
+fn intent(p: &Prod) -> Intent {
+    let strv = |t: &[u8]| {
+        let mut raw = t.to_vec();
+        raw.push(0);
+        Val::Str(true, lit(&raw))
+    };
+    match p {
+        Prod::ExportInfo { texts, k, .. } => {
+            let t = expand(&texts[*k as usize]);
+            if export_text_written(&t) {
+                Intent::Verbose { args: vec![strv(&t)], check_noar: true }
+            } else {
+                Intent::NoMsg
+            }
+        }
+        Prod::BlfAppText { text, .. } => {
+            // a text too long for one message is carried as far as it fits
+            let t = blf_fit(&blf_text(&expand(text)));
+            Intent::Verbose { args: vec![strv(&t)], check_noar: true }
+        }
+        Prod::BlfCan { id, data, .. } => Intent::NonVerbose { id: *id, rest: Rest::Bytes(data.clone()) },
+        Prod::Anon { be, verbose, payload, rt_us, .. } => {
+            if *verbose {
+                // the header's noar is left as it was by the plugin: not part of the statement
+                Intent::Verbose { args: vec![strv(format!("--anon,reception_time:{}ms", rt_us / 1000).as_bytes())], check_noar: false }
+            } else {
+                let pl = expand(payload);
+                if pl.len() >= 4 {
+                    Intent::NonVerbose { id: word(*be, &pl[0..4]) as u32, rest: Rest::U64(rt_us / 1000) }
+                } else {
+                    Intent::Consistent
+                }
+            }
+        }
+        Prod::TextLog { .. } => Intent::Verbose { args: vec![], check_noar: true },
+        Prod::ApidInfo { kind, tag } => {
+            let t = if *kind == 3 { tag.trim() } else { tag.trim_end() };
+            if t.is_empty() && *kind != 3 {
+                Intent::NoMsg
+            } else {
+                Intent::NonVerbose { id: 3, rest: Rest::LogInfo(t.as_bytes().to_vec()) }
+            }
+        }
+        Prod::AscCan { id, data, .. } => Intent::NonVerbose { id: *id, rest: Rest::Bytes(data.clone()) },
+    }
+}
+
+fn oracle_produced(p: &Prod, ex: &Exec, dec: &Decoded) -> Verdict {
+    let fail = |c: &str, d: String| Verdict::Fail { clause: c.into(), detail: d };
+    let m = ex.built.as_ref().unwrap();
+    let flag = m.is_big_endian();
+    if let Some(a) = dec.args.iter().find(|a| a.be != flag) {
+        return fail("producer_flag", format!("argument {:x} carries another byte order than the message", a.ti));
+    }
+    let consistent = |what: &str| -> Option<Verdict> {
+        if m.is_verbose() && m.noar() as usize != dec.args.len() {
+            Some(fail("producer_noar", format!("{}: noar {} but {} decodable argument(s) (is_big_endian={}, payload {:?})", what, m.noar(), dec.args.len(), flag, &m.payload[..m.payload.len().min(12)])))
+        } else {
+            None
+        }
+    };
+    match intent(p) {
+        Intent::NoMsg => fail("producer_skip", "a message was built for an input that has nothing to encode".into()),
+        Intent::Consistent => consistent("message").unwrap_or(Verdict::Ok),
+        Intent::Verbose { args, check_noar } => {
+            if !m.is_verbose() {
+                return fail("producer_verbose", "the message built is not verbose".into());
+            }
+            if check_noar {
+                if let Some(v) = consistent("verbose message") {
+                    return v;
+                }
+            }
+            let want: Vec<(u32, bool, Vec<u8>)> = args.iter().map(|v| val_arg(v, flag)).map(|a| (a.0, a.1, expand(&a.2))).collect();
+            if dec.args.len() != want.len() {
+                return fail("producer_decode_encode", format!("encoded {} argument(s), decoded {} (is_big_endian={}, payload {:?})", want.len(), dec.args.len(), flag, &m.payload[..m.payload.len().min(12)]));
+            }
+            for (n, (a, w)) in dec.args.iter().zip(want.iter()).enumerate() {
+                if a.ti != w.0 || a.raw != w.2 {
+                    return fail("producer_decode_encode", format!("argument {}: type {:x} raw {:?}, encoded {:x} {:?}", n, a.ti, &a.raw[..a.raw.len().min(16)], w.0, &w.2[..w.2.len().min(16)]));
+                }
+            }
+            let text = want.iter().map(|a| canon(clean_kind(a.0, &a.2).unwrap(), a.1, &a.2)).collect::<Vec<_>>().join(" ");
+            match &ex.text {
+                Some(Ok(t)) if *t == text => Verdict::Ok,
+                Some(Ok(t)) => fail("producer_text_canonical", format!("got {:?} want {:?}", t.chars().take(60).collect::<String>(), text.chars().take(60).collect::<String>())),
+                _ => fail("producer_text_canonical", "no text".into()),
+            }
+        }
+        Intent::NonVerbose { id, rest } => {
+            if m.is_verbose() {
+                return fail("producer_verbose", "the message built is verbose".into());
+            }
+            let a0 = match dec.args.first() {
+                Some(a) if a.raw.len() == 4 => a,
+                _ => return fail("producer_decode_encode", "no message id".into()),
+            };
+            if word(flag, &a0.raw) as u32 != id {
+                return fail("producer_decode_encode", format!("id {:#x} was written, {:#x} is read with the message's byte order (is_big_endian={})", id, word(flag, &a0.raw), flag));
+            }
+            let r: &[u8] = dec.args.get(1).map(|a| &a.raw[..]).unwrap_or(&[]);
+            let ok = match &rest {
+                Rest::Bytes(b) => r == &b[..],
+                Rest::U64(v) => r.len() == 8 && word(flag, r) as u64 == *v,
+                Rest::LogInfo(desc) => {
+                    r.len() == 11 + desc.len()
+                        && r[0] == 7
+                        && word(flag, &r[1..3]) == 1
+                        && m.apid().map(|a| a.as_buf()[..] == r[3..7]).unwrap_or(false)
+                        && word(flag, &r[7..9]) == 0
+                        && word(flag, &r[9..11]) as usize == desc.len()
+                        && r[11..] == desc[..]
+                }
+            };
+            if !ok {
+                return fail("producer_decode_encode", format!("the data after the id does not read back with the message's byte order (is_big_endian={}): {:?}", flag, &r[..r.len().min(16)]));
+            }
+            Verdict::Ok
+        }
+    }
+}
+
 fn oracle(i: &Input, ex: &Exec) -> Verdict {
     let fail = |c: &str, d: String| Verdict::Fail { clause: c.into(), detail: d };
     if let Some(e) = &ex.enc_panic {
         return fail("no_panic_encode", e.clone());
     }
+    if let Enc::Produced(p) = &i.enc {
+        if let Some(x) = ex.issues.first() {
+            return fail("producer_run", x.clone());
+        }
+        if ex.built_none {
+            return match intent(p) {
+                Intent::NoMsg | Intent::Consistent => Verdict::Ok,
+                _ => fail("producer_missing", "no message was built".into()),
+            };
+        }
+    }
     // the original typed arguments, if the input is in the property's domain
     let mut orig: Option<Vec<(u32, bool, Vec<u8>)>> = None;
     match &i.enc {
-        Enc::Payload(_) => {}
+        Enc::Payload(_) | Enc::Produced(_) => {}
         Enc::FromArgs(args) => {
             let v: Vec<(u32, bool, Vec<u8>)> = args.iter().map(|a| (a.0, a.1, expand(&a.2))).collect();
             if !v.is_empty() && v.iter().all(|a| a.1 == v[0].1 && clean_kind(a.0, &a.2).is_some()) && i.be == v[0].1 {
@@ -448,6 +970,9 @@ fn oracle(i: &Input, ex: &Exec) -> Verdict {
             Some(o) if o + a.raw.len() <= ex.payload.len() && ex.payload[o..o + a.raw.len()] == a.raw[..] => {}
             _ => return fail("in_bounds", format!("argument {} is not a slice of the payload", n)),
         }
+    }
+    if let Enc::Produced(p) = &i.enc {
+        return oracle_produced(p, ex, dec);
     }
     if !(i.ext && i.verbose) {
         return Verdict::Ok;
@@ -522,8 +1047,33 @@ fn c_sv(v: &Sv) -> String {
         Sv::Unit | Sv::NoneV | Sv::Seq => "IUnit".to_string(),
     }
 }
-fn c_input(i: &Input, tbl: &[(u64, Vec<u128>, Vec<u8>)]) -> String {
+/// the text the blf converter hands to the serializer, keeping a structural description of big fills
+fn blf_text_segs(text: &Segs) -> Segs {
+    let big = text.iter().any(|x| x.1 > 1000);
+    let clean = text.iter().all(|x| x.1 == 0 || (std::str::from_utf8(&x.0).is_ok() && !x.0.contains(&0)));
+    if big && clean {
+        text.clone()
+    } else {
+        lit(&blf_text(&expand(text)))
+    }
+}
+fn c_prod(p: &Prod, built: Option<&DltMessage>) -> String {
+    match p {
+        Prod::ExportInfo { src_be, texts, k, .. } => format!("PExportInfo {} {}", cbool(*src_be), c_segs(&texts[*k as usize])),
+        Prod::BlfAppText { text, .. } => format!("PBlfAppText {}", c_segs(&blf_text_segs(text))),
+        Prod::BlfCan { id, data, .. } | Prod::AscCan { id, data, .. } => format!("PCanFrame {} {}", id, c_segs(&lit(data))),
+        Prod::Anon { be, verbose, noar, payload, rt_us } => format!("PAnon {} {} {} {} {}", cbool(*be), cbool(*verbose), noar, c_segs(payload), rt_us),
+        Prod::TextLog { .. } => "PTextLog".to_string(),
+        Prod::ApidInfo { kind, tag } => {
+            let t = if *kind == 3 { tag.trim() } else { tag.trim_end() };
+            let apid: Vec<u8> = built.and_then(|m| m.apid()).map(|a| a.as_buf().to_vec()).unwrap_or_default();
+            format!("PApidInfo {} {} {}", cbool(*kind != 3), c_bytes(&apid), c_segs(&lit(t.as_bytes())))
+        }
+    }
+}
+fn c_input(i: &Input, tbl: &[(u64, Vec<u128>, Vec<u8>)], built: Option<&DltMessage>) -> String {
     let enc = match &i.enc {
+        Enc::Produced(p) => format!("EProduced ({})", c_prod(p, built)),
         Enc::Payload(s) => format!("EPayload {}", c_segs(s)),
         Enc::FromArgs(a) => format!("EFromArgs {}", clist(&a.iter().map(|x| format!("({}, {}, {})", x.0, cbool(x.1), c_segs(&x.2))).collect::<Vec<_>>())),
         Enc::Serde(v) => format!("ESerde {}", clist(&v.iter().map(c_sv).collect::<Vec<_>>())),
@@ -579,7 +1129,14 @@ fn observe(i: &Input, ex: &Exec) -> O {
     if let Some(k) = ex.enc_err {
         return O::T(vec![O::T(vec![O::L(1), O::n(k)])]);
     }
+    if ex.built_none {
+        return O::T(vec![O::T(vec![O::L(3)])]);
+    }
     let eo = match &i.enc {
+        Enc::Produced(_) => {
+            let m = ex.built.as_ref().unwrap();
+            O::T(vec![O::L(2), O::b(m.is_big_endian()), O::b(m.is_verbose()), O::n(m.noar()), o_bytes(&m.payload)])
+        }
         Enc::Payload(_) => O::T(vec![]),
         Enc::FromArgs(_) => o_bytes(ex.payload0.as_ref().unwrap()),
         Enc::Serde(_) => O::T(vec![O::L(0), O::n(ex.enc_noar.unwrap()), o_bytes(ex.payload0.as_ref().unwrap())]),
@@ -610,15 +1167,35 @@ fn record(sink: &mut Sink, i: Input) {
         _ => vec![],
     };
     let obs = observe(&i, &ex);
-    let input_coq = c_input(&i, &tbl);
+    let input_coq = c_input(&i, &tbl, ex.built.as_ref());
     let mut tags: Vec<String> = vec![];
     tags.push(match &i.enc {
         Enc::Payload(_) => "enc_payload".into(),
         Enc::FromArgs(_) => "enc_from_args".into(),
         Enc::Serde(_) => "enc_serde".into(),
+        Enc::Produced(p) => match p {
+            Prod::ExportInfo { src_be, .. } => format!("prod_export_info_src_{}", if *src_be { "be" } else { "le" }),
+            Prod::BlfAppText { .. } => "prod_blf_apptext".into(),
+            Prod::BlfCan { .. } => "prod_blf_can".into(),
+            Prod::Anon { be, verbose, .. } => format!("prod_anon_{}_{}", if *verbose { "verbose" } else { "nonverbose" }, if *be { "be" } else { "le" }),
+            Prod::TextLog { kind, .. } => format!("prod_textlog_{}", kind),
+            Prod::ApidInfo { kind, .. } => format!("prod_apid_info_{}", kind),
+            Prod::AscCan { fd, .. } => format!("prod_asc_can{}", if *fd { "fd" } else { "" }),
+        },
     });
-    tags.push(if i.be { "big_endian".into() } else { "little_endian".into() });
-    if !(i.ext && i.verbose) {
+    let produced = matches!(i.enc, Enc::Produced(_));
+    if produced {
+        tags.push("producer".into());
+        if ex.built_none {
+            tags.push("producer_no_msg".into());
+        }
+    }
+    let (m_be, m_verbose) = match &ex.built {
+        Some(m) => (m.is_big_endian(), m.is_verbose()),
+        None => (i.be, i.ext && i.verbose),
+    };
+    tags.push(if m_be { "big_endian".into() } else { "little_endian".into() });
+    if !m_verbose {
         tags.push("non_verbose".into());
     }
     if i.cut.is_some() {
@@ -670,7 +1247,7 @@ fn record(sink: &mut Sink, i: Input) {
     if !tbl.is_empty() {
         tags.push("external_text".into());
     }
-    let nontrivial = ndec >= 2 || (ndec >= 1 && (i.cut.is_some() || !i.patch.is_empty())) || ex.payload.len() >= 8;
+    let nontrivial = ndec >= 2 || (ndec >= 1 && (i.cut.is_some() || !i.patch.is_empty() || produced)) || ex.payload.len() >= 8;
     let id = sink.next_id();
     sink.push(Case {
         id,
@@ -1159,6 +1736,210 @@ fn generate(sink: &mut Sink, rng: &mut Rng, n: u64, thorough: bool) {
     }
 }
 
+// ------------------------------------------------------------------ generators for the crate's own producers
+fn prod_input(p: Prod, note: &str) -> Input {
+    Input { ext: true, verbose: true, be: false, noar: 0, enc: Enc::Produced(p), patch: vec![], cut: None, note: note.into() }
+}
+/// valid UTF-8 text: ASCII, multi-byte, control characters, embedded / trailing NUL, empty, fills up to and beyond the
+/// serializer's limit and around what fits the 16-bit length of a standard header
+fn gen_utf8_text(rng: &mut Rng, big_ok: bool) -> (Segs, &'static str) {
+    match rng.below(if big_ok { 12 } else { 10 }) {
+        0 => (vec![], "empty"),
+        1 | 2 | 3 => {
+            let n = rng.range(1, 30);
+            (lit(&(0..n).map(|_| rng.range(0x20, 0x7e) as u8).collect::<Vec<u8>>()), "ascii")
+        }
+        4 | 5 => {
+            let parts: [&str; 8] = ["é", "€", "😀", "\u{fffd}", "ä\n", "a b", "\u{7ff}", "\u{800}\t"];
+            let n = rng.range(1, 6);
+            let mut v = vec![];
+            for _ in 0..n {
+                v.extend_from_slice(rng.pick(&parts).as_bytes());
+            }
+            (lit(&v), "utf8_multibyte")
+        }
+        6 => {
+            let n = rng.range(1, 8);
+            (lit(&(0..n).map(|_| *rng.pick(&[b'\r', b'\n', b'\t', 0u8, 0x7f, 0x1b, b'a', b' '])).collect::<Vec<u8>>()), "control")
+        }
+        7 => {
+            let mut v: Vec<u8> = (0..rng.range(0, 5)).map(|_| rng.range(0x41, 0x5a) as u8).collect();
+            v.extend(std::iter::repeat(0u8).take(rng.range(1, 2) as usize));
+            (lit(&v), "nul_end")
+        }
+        8 | 9 => (vec![(vec![rng.range(0x61, 0x7a) as u8], rng.range(200, 3000))], "fill_medium"),
+        10 => (vec![(vec![rng.range(0x61, 0x7a) as u8], *rng.pick(&[60000u64, 65400, 65505, 65506, 65510]))], "fill_large"),
+        _ => {
+            let n = *rng.pick(&[65507u64, 65511, 65512, 65520, 65528, 65529, 65534, 65535, 65536, 70000]);
+            if rng.chance(1, 3) {
+                // multi-byte characters around the limits (a cut must not split one)
+                (vec![(vec![b'a'], rng.range(0, 3)), ("é".as_bytes().to_vec(), n / 2)], "fill_too_large")
+            } else {
+                (vec![(vec![rng.range(0x61, 0x7a) as u8], n)], "fill_too_large")
+            }
+        }
+    }
+}
+fn gen_tag(rng: &mut Rng) -> String {
+    let n = match rng.below(6) {
+        0 => 1,
+        1 => rng.range(25, 300),
+        _ => rng.range(2, 16),
+    };
+    let chars: Vec<char> = "abcdefghijklmnopqrstuvwxyzABCDEFGHIJKLMNOPQRSTUVWXYZ0123456789_./-".chars().collect();
+    let mut t: String = (0..n).map(|_| *rng.pick(&chars)).collect();
+    if rng.chance(1, 6) {
+        let extra: [&str; 4] = ["é", "ß", "日本", "_ü_"];
+        let e: &str = *rng.pick(&extra[..]);
+        t.push_str(e);
+    }
+    t
+}
+fn gen_can_data(rng: &mut Rng, fd: bool) -> Vec<u8> {
+    let n = if fd { *rng.pick(&[0u64, 1, 8, 12, 16, 24, 64]) } else { rng.range(0, 8) };
+    (0..n).map(|_| match rng.below(4) { 0 => 0, 1 => 0xff, _ => rng.next() as u8 }).collect()
+}
+fn gen_can_id(rng: &mut Rng, ext: bool) -> u32 {
+    match rng.below(6) {
+        0 => 0,
+        1 => 1,
+        2 => if ext { 0x1fff_ffff } else { 0x7ff },
+        3 => 0x100, // one significant byte that is not the low one
+        _ => rng.next() as u32 & if ext { 0x1fff_ffff } else { 0x7ff },
+    }
+}
+fn generate_producers(sink: &mut Sink, rng: &mut Rng, n: u64) {
+    let mut produced = 0u64;
+    while produced < n {
+        match rng.below(20) {
+            // export plugin: 1..4 info texts, first exported message of either byte order
+            0..=5 => {
+                let nt = rng.range(1, 4);
+                let mut notes = vec![];
+                let mut big_used = false;
+                let texts: Vec<Segs> = (0..nt)
+                    .map(|_| {
+                        let (s, tag) = gen_utf8_text(rng, !big_used);
+                        if s.iter().any(|x| x.1 > 10000) {
+                            big_used = true;
+                        }
+                        notes.push(format!("info_{}", tag));
+                        s
+                    })
+                    .collect();
+                let src_be = rng.chance(1, 2);
+                let more: Vec<bool> = (0..rng.below(3)).map(|_| rng.chance(1, 2)).collect();
+                let ks: Vec<u64> = if rng.chance(1, 2) { (0..nt).collect() } else { vec![rng.below(nt)] };
+                for k in ks {
+                    record(sink, prod_input(Prod::ExportInfo { src_be, texts: texts.clone(), k, more: more.clone() }, &notes[k as usize]));
+                    produced += 1;
+                }
+            }
+            // blf AppText: any bytes
+            6..=8 => {
+                let (text, tag) = if rng.chance(1, 2) {
+                    gen_utf8_text(rng, true)
+                } else {
+                    let (s, t) = gen_bytes(rng, false, true);
+                    (s, t)
+                };
+                let source = *rng.pick(&[0u32, 1, 3, 17, 999, 1000, 70000]);
+                record(sink, prod_input(Prod::BlfAppText { source, text, ts_ns: rng.below(1 << 40) }, &format!("apptext_{}", tag)));
+                produced += 1;
+            }
+            9 => {
+                let (ext, fd) = (rng.chance(1, 2), rng.chance(1, 4));
+                let channel = rng.range(1, 4) as u16;
+                let id = gen_can_id(rng, ext);
+                record(sink, prod_input(Prod::BlfCan { channel, id, data: gen_can_data(rng, fd) }, ""));
+                produced += 1;
+            }
+            // anonymize plugin on log messages of both byte orders
+            10..=13 => {
+                let be = rng.chance(1, 2);
+                let verbose = rng.chance(2, 3);
+                let payload: Segs = if verbose {
+                    let mut notes = vec![];
+                    let vals = gen_vals(rng, 3, false, &mut notes);
+                    let args: Vec<(u32, bool, Vec<u8>)> = vals.iter().map(|v| val_arg(v, be)).map(|a| (a.0, a.1, expand(&a.2))).collect();
+                    let dargs: Vec<DltArg> = args.iter().map(|a| DltArg { type_info: a.0, is_big_endian: a.1, payload_raw: &a.2 }).collect();
+                    lit(&payload_from_args(&dargs))
+                } else {
+                    let n = *rng.pick(&[0u64, 3, 4, 5, 8, 20]);
+                    lit(&(0..n).map(|_| rng.next() as u8).collect::<Vec<u8>>())
+                };
+                let rt_us = match rng.below(8) {
+                    0 => 0,
+                    1 => 999,
+                    2 => 1000,
+                    3 => u64::MAX,
+                    4 => 1u64 << 63,
+                    5 => 1_700_000_000_000_000,
+                    _ => rng.next() >> rng.below(64),
+                };
+                record(sink, prod_input(Prod::Anon { be, verbose, noar: *rng.pick(&[0u8, 1, 2, 3, 255]), payload, rt_us }, ""));
+                produced += 1;
+            }
+            // text converters
+            14 | 15 => {
+                let kind = rng.below(3) as u8;
+                let (m, _) = gen_utf8_text(rng, false);
+                let msg: String = String::from_utf8(expand(&m)).unwrap().chars().filter(|c| *c != '\n' && *c != '\r' && *c != '\0').collect();
+                record(sink, prod_input(Prod::TextLog { kind, tag: gen_tag(rng), msg }, ""));
+                produced += 1;
+            }
+            16 | 17 => {
+                record(sink, prod_input(Prod::ApidInfo { kind: rng.below(4) as u8, tag: gen_tag(rng) }, ""));
+                produced += 1;
+            }
+            _ => {
+                let (fd, ext) = (rng.chance(1, 3), rng.chance(1, 2));
+                let id = gen_can_id(rng, ext);
+                record(sink, prod_input(Prod::AscCan { fd, ext, id, data: gen_can_data(rng, fd) }, ""));
+                produced += 1;
+            }
+        }
+    }
+}
+fn corpus_producers(sink: &mut Sink) {
+    let t = |s: &str| lit(s.as_bytes());
+    for src_be in [false, true] {
+        // the info text of the export plugin's own unit test / of the demonstration, both source byte orders
+        record(sink, prod_input(Prod::ExportInfo { src_be, texts: vec![t("Filters used: none")], k: 0, more: vec![] }, "corpus"));
+        record(sink, prod_input(Prod::ExportInfo { src_be, texts: vec![t("a"), t(""), t("line1\nline2\ttab"), t("ü€")], k: 2, more: vec![!src_be, src_be] }, "corpus"));
+        record(sink, prod_input(Prod::ExportInfo { src_be, texts: vec![t(""), t("x")], k: 0, more: vec![] }, "corpus"));
+        // info texts that do not fit one message (fixed defect: a storage header without message corrupted the file)
+        for n in [65510u64, 65511, 65534, 65535] {
+            for k in 0..2 {
+                record(sink, prod_input(Prod::ExportInfo { src_be, texts: vec![vec![(vec![b'x'], n)], t("after")], k, more: vec![] }, "corpus"));
+            }
+        }
+        for verbose in [false, true] {
+            record(sink, prod_input(Prod::Anon { be: src_be, verbose, noar: 2, payload: lit(&trigger_msg(src_be).payload), rt_us: 1_700_000_000_123_456 }, "corpus"));
+            record(sink, prod_input(Prod::Anon { be: src_be, verbose, noar: 0, payload: vec![], rt_us: 0 }, "corpus"));
+        }
+    }
+    record(sink, prod_input(Prod::BlfAppText { source: 0, text: t("comment\0"), ts_ns: 1000 }, "corpus"));
+    record(sink, prod_input(Prod::BlfAppText { source: 1, text: vec![], ts_ns: 0 }, "corpus"));
+    record(sink, prod_input(Prod::BlfAppText { source: 3, text: lit(&[0xff, b'a', 0xc3]), ts_ns: 5 }, "corpus"));
+    // texts that do not fit one message (fixed defects: add overflow of the len field, unwrap of DataTooLarge)
+    for n in [65506u64, 65507, 65528, 65534, 65535, 70000] {
+        record(sink, prod_input(Prod::BlfAppText { source: 0, text: vec![(vec![b'y'], n)], ts_ns: 5 }, "corpus"));
+    }
+    record(sink, prod_input(Prod::BlfAppText { source: 0, text: vec![(vec![b'a'], 1), ("€".as_bytes().to_vec(), 21840)], ts_ns: 5 }, "corpus"));
+    record(sink, prod_input(Prod::BlfCan { channel: 1, id: 0x36f, data: vec![0xf2, 0xf7, 0xfe, 0xff, 0x14] }, "corpus"));
+    record(sink, prod_input(Prod::BlfCan { channel: 2, id: 0x1234_5678, data: vec![] }, "corpus"));
+    for kind in 0..3u8 {
+        record(sink, prod_input(Prod::TextLog { kind, tag: "auditd".into(), msg: "type=1400 audit(0.0:35): avc: denied".into() }, "corpus"));
+        record(sink, prod_input(Prod::ApidInfo { kind, tag: "auditd".into() }, "corpus"));
+    }
+    record(sink, prod_input(Prod::ApidInfo { kind: 3, tag: "IuK_CAN".into() }, "corpus"));
+    record(sink, prod_input(Prod::ApidInfo { kind: 3, tag: "".into() }, "corpus"));
+    record(sink, prod_input(Prod::AscCan { fd: false, ext: false, id: 0x36f, data: vec![0xf2, 0xf7, 0xfe, 0xff, 0x14] }, "corpus"));
+    record(sink, prod_input(Prod::AscCan { fd: false, ext: true, id: 0x18ff_1234, data: vec![] }, "corpus"));
+    record(sink, prod_input(Prod::AscCan { fd: true, ext: false, id: 0x2d, data: vec![0x28, 0xf6, 0xff, 0x7f, 0xff, 0x7f, 0xff, 0x7f, 0xff, 0x7f, 0x11, 0x11] }, "corpus"));
+}
+
 fn corpus(sink: &mut Sink) {
     let mut rng = Rng::new(4242);
     let bi = |be: bool, enc: Enc| Input { ext: true, verbose: true, be, noar: 1, enc, patch: vec![], cut: None, note: "corpus".into() };
@@ -1287,6 +2068,7 @@ fn main() {
     let thorough = a.tier != "quick";
     if a.tier != "search" {
         corpus(&mut sink);
+        corpus_producers(&mut sink);
     }
     let n = a.count.unwrap_or(match a.tier.as_str() {
         "quick" => 2000,
@@ -1294,5 +2076,8 @@ fn main() {
         _ => 30000,
     });
     generate(&mut sink, &mut rng, n, thorough);
+    // the crate's own producers of verbose / host-order payloads (about 1/6 on top)
+    let mut rng2 = rng.fork();
+    generate_producers(&mut sink, &mut rng2, n / 6);
     sink.finish();
 }
